@@ -225,7 +225,7 @@ func init() {
 				}
 				c14open(x, batch)
 			case "open-many":
-				n := []int{253, 254, 300, -250}[x.Choose(4, "count")] // negative: that many items that all fail (missing parent, names of ~120 bytes)
+				n := []int{253, 254, 300, -250, -248}[x.Choose(5, "count")] // negative: that many items that fail (missing parent, names of ~120 bytes); -248: 240 of them plus 8 that open
 				if x.Dry() {
 					return
 				}
@@ -430,12 +430,39 @@ func c14many(x *mc.X, n int) {
 		// every item fails: the reply carries one error text per item
 		n = -n
 		x.Note("open-batch", fmt.Sprintf("%d items that all fail (missing parent directory, long names)", n))
+		mixed := 0
+		if n == 248 {
+			// a mixed batch: the request fits one message, the reply (one error text per failing item) does not. Whatever
+			// the call answers, every descriptor that reaches the host belongs to an item of the result
+			mixed, n = 8, 240
+			x.Note("open-batch", "8 new files + 240 items that fail (missing parent directory, long names)")
+			for i := 0; i < mixed; i++ {
+				cmds = append(cmds, container.OpenCmd{Path: fmt.Sprintf("/w/mixed-ok-%d", i), Flag: os.O_CREATE | os.O_WRONLY, Perm: 0644})
+			}
+		}
 		for i := 0; i < n; i++ {
 			cmds = append(cmds, container.OpenCmd{Path: fmt.Sprintf("/w/no-such-directory-%s/f%d", strings.Repeat("x", 90), i), Flag: os.O_RDONLY})
 		}
+		hostBefore := fdSet()
 		var res []container.OpenCmdResult
 		var err error
 		returned := withTimeout(horizon, func() { res, err = c.Open(cmds) })
+		defer func() {
+			// evaluated after the results were closed below
+			extra := 0
+			for fd := range fdSet() {
+				if hostBefore[fd] {
+					continue
+				}
+				if l, _ := os.Readlink(fmt.Sprintf("/proc/self/fd/%d", fd)); strings.Contains(l, "mixed-ok-") {
+					extra++
+					unix.Close(fd)
+				}
+			}
+			if returned && extra != 0 {
+				x.Failf(fmt.Sprintf("C14/open-many-failing/descriptors-without-an-item/%d+%d", mixed, n), "a batch of %d opening and %d failing items answered %v with %d results; %d descriptors of container files stay open in the host that no result refers to", mixed, n, err, len(res), extra)
+			}
+		}()
 		nerr := 0
 		for _, r := range res {
 			if r.Err != nil {
@@ -452,7 +479,7 @@ func c14many(x *mc.X, n int) {
 			c14pool.drop()
 			return
 		}
-		if err == nil && nerr != n {
+		if err == nil && nerr != n && mixed == 0 {
 			x.Failf(fmt.Sprintf("C14/open-many-failing/results/%d", n), "a batch of %d failing opens returned %d item errors", n, nerr)
 		}
 		if perr := envUsable(c); perr != nil {
